@@ -9,7 +9,12 @@ use serde_json::{json, Map, Value};
 const FIELDS: [&str; 9] = ["typ", "cty", "jku", "kid", "x5u", "x5c", "x5t", "x5t_s256", "crit"];
 
 fn rand_string(rng: &mut Rng) -> String {
-    let pool = ["application/json", "application/example+sd-jwt", "application/jwt", "text/plain", "application/", "APPLICATION/JSON", "vc+sd-jwt", "", "a", "sd-jwt", "kb+jwt", "https://example.com/jwks.json", "é", "日本語", "with \"quotes\"", "tab\tnewline\n", "😀", "null", "0", "~/. ", "\u{7f}", "x5t"];
+    let pool = ["application/json", "application/example+sd-jwt", "application/jwt", "text/plain", "application/", "APPLICATION/JSON", "vc+sd-jwt", "", "a", "sd-jwt", "kb+jwt", "https://example.com/jwks.json", "é", "日本語", "with \"quotes\"", "tab\tnewline\n", "😀", "null", "0", "~/. ", "\u{7f}", "x5t",
+        // values in the forms these fields take in the wild: PEM armour (LF and CRLF), padded / standard-alphabet
+        // base64, a URL with query, a media type with parameters, the well-known typ values
+        "-----BEGIN CERTIFICATE-----\nMIIBszCCAVmgAwIBAgIUQ0a+/Zz9\nAQ==\n-----END CERTIFICATE-----\n",
+        "-----BEGIN CERTIFICATE-----\r\nMIIB+/8=\r\n-----END CERTIFICATE-----", "MIIB+/8=", "dGhpcyBpcyBhIHRodW1icHJpbnQ=", "https://example.com/c?x=1&y=%20#f",
+        "application/json; charset=utf-8", "JWT", "dc+sd-jwt", "vc+sd-jwt", "SD-JWT", " sd-jwt ", "b64"];
     if rng.chance(1, 2) { rng.pick(&pool).to_string() } else { (0..rng.below(12)).map(|_| *rng.pick(&['a', 'Z', '0', '-', '_', '.', ' ', 'é', '/'])).collect() }
 }
 
@@ -37,7 +42,13 @@ fn one(ctx: &mut Ctx, alg: &Algorithm, set: &Map<String, Value>, case: &Value) {
     let mut expected = set.clone();
     expected.insert("alg".into(), json!(keys::alg_name(alg)));
     let expected = Value::Object(expected);
-    let claims = json!({"sub": "u", "name": "n"});
+    // the claims vary with the case too (what is in the payload must not reach the header): now and then the
+    // registered / well-known claim names a header-setting shortcut might look at
+    let claims = match crate::report::hash_of(case) % 4 {
+        0 => json!({"sub": "u", "name": "n", "vct": "https://credentials.example.com/identity_credential", "iss": "https://issuer.example", "iat": 1_700_000_000, "typ": "x", "alg": "none", "kid": "payload-kid", "cty": "payload-cty"}),
+        1 => json!({"sub": "u", "name": "n", "vc": {"type": ["VerifiableCredential"]}, "status": {"idx": 1}}),
+        _ => json!({"sub": "u", "name": "n"}),
+    };
     let out = real::guard(|| {
         let mut issuer = Issuer::new(claims.clone())?;
         issuer.disclosable("/name").header(header.clone());
